@@ -203,6 +203,21 @@ CLAIMED = {
         note="With caching off the property claims nothing about fetch counts; the model leaves open whether two spellings of "
              "one URL share a cache entry, and the replay accepts any behaviour the model allows.",
         design="5 C15"),
+    "C17": dict(
+        technique="TLA+ ErrorTree module (incremental AddTo vs declarative KwsAt / ChildKeys / Total); TLC refinement check over all "
+                  "arrival sequences (MC_C17: Refines, Findable, OrderFree); synthetic replays and real error collections "
+                  "in all permutations judged by TLC (Trace_C17)",
+        text="The specification gives the tree a declarative meaning over the set of added errors and an incremental "
+             "construction that never consults an instance; TLC checks after every AddError, for all sequences of errors "
+             "over paths through keys and indices with repeated (path, keyword) pairs, that the construction refines the "
+             "meaning and does not depend on arrival order. Every final sequence is replayed with synthetic "
+             "ValidationErrors, and the real errors of random validations (with the Draft 3 required and propertyNames "
+             "shapes) are fed to ErrorTree in every permutation; the observed tree (errors per node, children via "
+             "iteration and membership, total_errors, len, each error reached by indexing along its path) is judged by "
+             "TLC, and indexing of existing error-free elements is probed on fresh trees.",
+        note="Membership/iteration are claimed for freshly built trees only (a lookup inserts an empty child: documented "
+             "quirk). Known finding F12 (node instance taken from a propertyNames error).",
+        design="5 C17"),
     "C18": dict(
         technique="TLA+ Iterators module with one scope stack per validator; TLC enumerates all next()-level interleavings of "
                   "2-3 iterators over measured scripts (MC_Interleave, invariant Independent, negative control SharedStack); "
